@@ -19,7 +19,7 @@ var propPkgs = map[string][]string{
 	"C01": {"pkg/convert", "|", "pkg/encoding", "pkg/encoding/vararray"},
 	"C02": {"banyand/measure"},
 	"C03": {"banyand/measure"},
-	"C09": {"pkg/query/logical/measure", "pkg/query/executor", "pkg/query/logical/trace", "pkg/iter"},
+	"C09": {"pkg/query/logical/measure", "pkg/query/executor", "pkg/query/logical/trace", "pkg/iter", "|", "banyand/internal/sidx"},
 	"C08": {"pkg/filter", "pkg/encoding", "pkg/encoding/vararray", "|", "banyand/measure", "|", "banyand/stream"},
 	"C05": {"banyand/internal/snapshot", "|", "banyand/measure", "|", "banyand/stream", "|", "banyand/trace"},
 	"C19": {"banyand/internal/storage", "pkg/timestamp", "|", "banyand/measure", "|", "banyand/stream", "|", "banyand/trace"},
